@@ -11,7 +11,7 @@ from vf.ref import incremental as refinc
 
 ID = "C04"
 BOUNDS = {
-    "quick": "19 defer/stream requests x site sets (<=3 awaitable sites incl. async-generator sources) x 6 data faults x early execution off/on x error propagation on/off x every completion order incl. consumer pulls (complete); early release <=1 on fault-free combinations with <=120 schedules",
+    "quick": "20 defer/stream requests x site sets (<=3 awaitable sites incl. async-generator sources) x 6 data faults x early execution off/on x error propagation on/off x every completion order incl. consumer pulls (complete); early release <=1 on fault-free combinations with <=120 schedules",
     "thorough": "early release <=2 on fault-free and <=1 on faulted combinations with <=2500 schedules; cap 300000 executions per exploration",
 }
 RULE = (
@@ -43,12 +43,14 @@ REQUESTS = [
      [[], ["r1.friends:agen"], ["u1.friends:items"]], None),
     ("abstract_defer", '{ beings { ... on User { ... @defer(label: "u") { name } } ... on Robot { ... @defer(label: "r") { model friends { id } } } } }', {},
      [["u1.name", "r1.model"]], None),
+    ("shared_nested_fail", '{ me { ... @defer(label: "A") { nn } ... @defer(label: "C") { name ... @defer(label: "B") { nn id } } } }', {"B": "C"},
+     [[], ["u1.nn"], ["u1.name", "u1.nn"]], None),
     ("same_frag", '{ me { ...F ...F @defer(label: "a") } other { ...F @defer(label: "b") } } fragment F on User { name best { id } }', {},
      [["u1.name", "u2.name"], ["u1.best"]], None),
     ("defer_if", 'query ($v: Boolean!) { me { ... @defer(if: $v, label: "a") { name } ... @defer(if: false) { id } } }', {}, [["u1.name"]], [{"v": True}, {"v": False}]),
     ("defer_list", '{ users { id ... @defer(label: "a") { name } } }', {}, [["u1.name", "u2.name"], ["u3.name"]], None),
     ("stream_sync", '{ me { friends @stream(initialCount: 1, label: "s") { id } } }', {}, [[], ["u1.friends:gen"], ["u1.friends:items"]], None),
-    ("stream_agen", '{ me { friends @stream(label: "s") { id name } } }', {}, [["u1.friends:agen", "u2.name"], ["u1.friends:aiter"], ["u1.friends:agen!1"]], None),
+    ("stream_agen", '{ me { friends @stream(label: "s") { id name } } }', {}, [["u1.friends:agen", "u2.name"], ["u1.friends:aiter"], ["u1.friends:agen!1"], ["u1.friends:agen!1", "u2.name"], ["u1.friends:agen!2", "u3.name"]], None),
     ("defer_in_stream", '{ me { friends @stream(initialCount: 1, label: "s") { id ... @defer(label: "d") { name } } } }', {},
      [["u1.friends:agen", "u2.name"], ["u2.name", "u3.name"]], None),
     ("scalars_top", '{ ... @defer(label: "t") { other { name } } me { tags @stream(initialCount: 2, label: "s") } }', {}, [["u2.name"], ["u1.tags:agen"]], None),
